@@ -508,6 +508,23 @@ func (x *crashExec) step(op kvh.Op, record bool) (*kvh.Fail, *kvh.CrashSpec) {
 
 // replayCrashCase re-executes a saved crash case (all its images, or only the pinned one).
 func replayCrashCase(c *crashCase, setup func(x *crashExec)) *kvh.Fail {
+	if f := replayCrashCaseOnce(c, setup); f != nil || c.Only == nil {
+		return f
+	}
+	// Merge iterates the rotated files in Go map order, so the numbering of the events inside a merge can differ
+	// between executions and the pinned image may not be the one that failed: enumerate all images of the workload.
+	all := *c
+	all.Only = nil
+	all.SelPct = 100
+	for i := 0; i < 3; i++ {
+		if f := replayCrashCaseOnce(&all, setup); f != nil {
+			return f
+		}
+	}
+	return nil
+}
+
+func replayCrashCaseOnce(c *crashCase, setup func(x *crashExec)) *kvh.Fail {
 	ops := c.Ops
 	cc := *c
 	cc.Ops = nil
